@@ -27,7 +27,7 @@ CLAIMED = {
  "C16": dict(
   level="exploration", design="§3 C16", engine="simos",
   technique="deterministic simulation with fault injection: the real jaq binary in a simulated file tree and environment (HOME, $ORIGIN, cwd, -L lists) with copies of every module planted in seeded subsets of the candidate directories; open/stat/read failures injected on the best-ranked candidate; loaded copy compared with a candidate-order model",
-  text="Restricted scope: decides the look-up sentence of the statement (search metadata relative to the importing file or the cwd, before -L paths or the defaults; ~ and $ORIGIN expansion; extension appended only when none is given; absolute paths refused; cycles reported) and the load-once clause (opens per module file bounded by its in-degree on layered diamonds), by running the real binary on seeded file trees in which every candidate copy announces its own location, with symlinked, dangling, looping and directory candidates, decoys in unsearched directories, and injected open/stat/read failures on the winning candidate (outcome: status 3 or the next candidate in model order, never another copy, a panic or a hang). NOT decided: 'a modular program computes what its inlined form computes' - a pure function of the module texts with no schedule or fault in it.",
+  text="Restricted scope: decides the look-up sentence of the statement (search metadata relative to the importing file or the cwd, before -L paths or the defaults; ~ and $ORIGIN expansion; extension appended only when none is given; absolute paths refused; cycles reported) and the load-once clause (opens per module file bounded by its in-degree on layered diamonds), by running the real binary on seeded file trees in which every candidate copy announces its own location, with symlinked, dangling, looping and directory candidates, decoys in unsearched directories, library modules that carry include and data-import directives of their own (resolved relative to the module file, the data bound in that module only - observed through which file's contents appear), and injected open/stat/read failures on the winning candidate (outcome: status 3 or the next candidate in model order, never another copy, a panic or a hang). NOT decided: 'a modular program computes what its inlined form computes' - a pure function of the module texts with no schedule or fault in it.",
   note="Trusted: kernel, libc, ptrace tracer, the candidate-order model (c16.rs, ~60 lines). The equation modular = inlined is not claimed."),
  "C17": dict(
   level="exploration", design="§3 C17", engine="simos",
@@ -36,9 +36,9 @@ CLAIMED = {
   note="Trusted: kernel, libc, ptrace tracer, the reference model (vf/src/model/cli.rs, transcribed from docs/cli.dj); the tree's interpreter, slice parsers and value writers are shared by model and system (C01/C07/C14 not claimed). stdout/stderr are never terminals in the simulator."),
  "C19": dict(
   level="exploration", design="§3 C19", engine="simthreads",
-  technique="deterministic simulation of thread schedules: shuttle's seeded random and PCT schedulers run 2-4 threads sharing one compiled filter (and, in the thread-safe value flavour, one value), every stream compared with the stream computed alone in a fresh process; failing schedules are persisted and replayed exactly; Send + Sync facts asserted at compile time against the tree",
-  text="S0 (static): the simthreads crate asserts Filter<DataKind>, Filter<JustLut<Val>>, Lut and (with jaq-json/sync) Val to be Send + Sync and is compiled against the working tree in both flavours; a build failure naming these bounds is the violation. S1 (schedules): for 64 terminating programs (regex with differing flags, lazily created nested labels, closures, folds, updates, paths, codecs, formats, dates) x 8 inputs the isolated output stream is computed in a fresh process per pair; shuttle then runs seeded random and PCT schedules in which threads share one Arc<Filter> per program, pull one output per scheduling step, sometimes compile and run another program in between, and (sync flavour) work on one shared value; every stream must equal the isolated one, compilation must succeed iff it does alone, the shared value must be unchanged. Seeded search over schedules: evidence, not proof. jaq has no synchronisation of its own, so interleavings are explored at the granularity of the scheduling points the harness inserts (between pulls, around compilation); preemption inside one native call is out of shuttle's reach and is said so.",
-  note="Trusted: shuttle's scheduler and replay, the isolated-process oracle. `now`, `env`, `input(s)` are excluded as the statement allows. Data races inside a single native call are not explorable by shuttle (no shuttle primitives inside jaq)."),
+  technique="deterministic simulation of thread schedules: shuttle's seeded random and PCT schedulers run 2-4 threads sharing one compiled filter (and, in the thread-safe value flavour, one value), every stream compared with the stream computed alone in a fresh process; a second stratum runs real threads under Miri's seeded preemptive scheduler; failing schedules / seeds are persisted and replayed exactly; Send + Sync facts asserted at compile time against the tree",
+  text="S0 (static): the simthreads crate asserts Filter<DataKind>, Filter<JustLut<Val>>, Lut and (with jaq-json/sync) Val to be Send + Sync and is compiled against the working tree in both flavours; a build failure naming these bounds is the violation. S1 (schedules): for 64 terminating programs (regex with differing flags, lazily created nested labels, closures, folds, updates, paths, codecs, formats, dates) x 8 inputs the isolated output stream is computed in a fresh process per pair; shuttle then runs seeded random and PCT schedules in which threads share one Arc<Filter> per program, pull one output per scheduling step, sometimes compile and run another program in between, and (sync flavour) work on one shared value; every stream must equal the isolated one, compilation must succeed iff it does alone, the shared value must be unchanged. S2 (preemption): 3 real threads sharing the compiled filters of 10 core-language programs (lazily created nested labels, folds, closures, recursion, updates) under Miri, whose scheduler preempts at basic-block granularity from a seed (12 seeds quick, 384 thorough; one seed = one exactly repeatable execution) and which also reports data races and undefined behaviour; every stream must equal the sequential one. Seeded search over schedules: evidence, not proof. jaq has no synchronisation of its own, so shuttle interleaves only at the scheduling points the harness inserts (between pulls, around compilation); interleavings inside one interpreter call are covered by the much smaller Miri stratum only.",
+  note="Trusted: shuttle's scheduler and replay, Miri's scheduler and race detector, the isolated-process oracle. `now`, `env`, `input(s)` are excluded as the statement allows. Data races inside a single native call are not explorable by shuttle (no shuttle primitives inside jaq)."),
 }
 
 NA = {
